@@ -38,15 +38,17 @@ def gen(rng, tier):
         inst, info = GI.rand_instance(rng, n_cons=rng.randint(1, 3), n_removed=rng.randint(0, 2))
         st = GI.rand_state_for(rng, info)
         ops = rand_ops(rng, info["cids"], rng.randint(1, 8))
-        cases.append({"op": "relax_history", "input": [inst, ops, st], "stream": "random"})
+        extra = [GI.rand_state_for(rng, info) for _ in range(rng.randint(1, 3))]
+        cases.append({"op": "relax_history", "input": [inst, ops, st, extra], "stream": "random"})
     if tier == "thorough":
         inst, info = GI.rand_instance(rng, n_cons=2, n_removed=1)
         st = GI.rand_state_for(rng, info)
+        extra = [GI.rand_state_for(rng, info) for _ in range(2)]
         ids = info["cids"] + [777]
         alphabet = [["relax", i, "r", []] for i in ids] + [["restore", i] for i in ids]
         for L in range(1, 5):
             for hist in itertools.product(alphabet, repeat=L):
-                cases.append({"op": "relax_history", "input": [inst, list(hist), st], "stream": "exhaustive<=4"})
+                cases.append({"op": "relax_history", "input": [inst, list(hist), st, extra], "stream": "exhaustive<=4"})
     return cases
 
 
